@@ -13,6 +13,9 @@ pub fn dispatch(f: &[&str]) -> String {
         "round" => f_dec(&p_dec(f[1]).round(f[2].parse().unwrap())),
         "round_pair" => p_mode(f[1]).round_pair(p_sign(f[2]), (f[3].parse().unwrap(), f[4].parse().unwrap()), f[5] == "true").to_string(),
         "round_u32" => p_mode(f[1]).round_u32(std::num::NonZeroU8::new(f[3].parse().unwrap()).unwrap(), p_sign(f[2]), f[4].parse().unwrap(), f[5] == "true").to_string(),
+        "with_prec" => f_dec(&p_dec(f[1]).with_prec(f[2].parse().unwrap())),
+        "prec_round" => prec_round(f[1], f[2], f[3], f[4], f[5]),
+        "ctx_add" => ctx_add(f[1], f[2], f[3], f[4], f[5], f[6], f[7]),
         "to_prim" => to_prim(f[1], f[2], f[3]),
         "to_bigint" => match p_dec(f[1]).to_bigint() { Some(v) => v.to_string(), None => "None".to_string() },
         "is_integer" => p_dec(f[1]).is_integer().to_string(),
@@ -131,4 +134,40 @@ pub fn p_sign(s: &str) -> num_bigint::Sign {
         "NoSign" => num_bigint::Sign::NoSign,
         _ => num_bigint::Sign::Plus,
     }
+}
+
+fn ctx(p: &str, mode: &str) -> Context {
+    Context::default().with_prec(p.parse::<u64>().unwrap()).unwrap().with_rounding_mode(p_mode(mode))
+}
+
+fn prec_round(kind: &str, form: &str, a: &str, p: &str, mode: &str) -> String {
+    let x = p_dec(a);
+    let c = ctx(p, mode);
+    let r = match (kind, form) {
+        ("with_precision_round", _) => x.with_precision_round(std::num::NonZeroU64::new(p.parse().unwrap()).unwrap(), p_mode(mode)),
+        ("round_decimal", _) => c.round_decimal(x),
+        ("round_with_context", _) => x.to_ref().round_with_context(&c),
+        ("round_decimal_ref", "&BigDecimal") => c.round_decimal_ref(&x),
+        ("round_decimal_ref", "BigDecimalRef") => c.round_decimal_ref(x.to_ref()),
+        ("round_decimal_ref", "&BigInt") => { let (i, _) = x.into_bigint_and_exponent(); c.round_decimal_ref(&i) }
+        _ => return "UNKNOWN-PREC-ROUND".to_string(),
+    };
+    f_dec(&r)
+}
+
+fn ctx_add(kind: &str, fa: &str, fb: &str, a: &str, b: &str, p: &str, mode: &str) -> String {
+    let x = p_dec(a);
+    let y = p_dec(b);
+    let c = ctx(p, mode);
+    let mut dest = BigDecimal::from(0);
+    let r = match (kind, fa, fb) {
+        ("add_refs", "&BigDecimal", "&BigDecimal") => c.add_refs(&x, &y),
+        ("add_refs", "BigDecimalRef", "BigDecimalRef") => c.add_refs(x.to_ref(), y.to_ref()),
+        ("add_refs", "&BigDecimal", "BigDecimalRef") => c.add_refs(&x, y.to_ref()),
+        ("add_refs_into", "&BigDecimal", "&BigDecimal") => { c.add_refs_into(&x, &y, &mut dest); dest }
+        ("add_refs_into", "BigDecimalRef", "BigDecimalRef") => { c.add_refs_into(x.to_ref(), y.to_ref(), &mut dest); dest }
+        ("add_refs_into", "&BigDecimal", "BigDecimalRef") => { c.add_refs_into(&x, y.to_ref(), &mut dest); dest }
+        _ => return "UNKNOWN-CTX-ADD".to_string(),
+    };
+    f_dec(&r)
 }
